@@ -483,6 +483,19 @@ func c38GenCommands(seed uint64) map[string][]c38Case {
 	}
 	pack("cmd/prepare", "ns1_rw", "", 5, fr)
 
+	// ---- the unit alphabet of SQL lexemes in every position, for COM_STMT_PREPARE and COM_QUERY
+	for _, lx := range []struct {
+		group string
+		cmd   byte
+		class string
+	}{{"cmd/prepare-lex", mycli.ComStmtPrepare, "cmd/prepare/lex"}, {"cmd/query-lex", mycli.ComQuery, "cmd/query/lex"}} {
+		fr = nil
+		for _, q := range c38LexTexts(seed, lx.group) {
+			fr = append(fr, c38Cmd(lx.class, lx.cmd, []byte(q)))
+		}
+		pack(lx.group, "ns1_rw", "", 8, fr)
+	}
+
 	// ---- STMT_EXECUTE / SEND_LONG_DATA / RESET / CLOSE against the prepared set
 	out2 := c38GenStmt(seed)
 	for g, frames := range out2 {
@@ -683,4 +696,68 @@ func c38TypeClass(tp byte) string {
 		return "lenenc"
 	}
 	return "unknown"
+}
+
+// c38LexUnits is the unit alphabet of SQL lexemes (well-formed ones first, then broken variants).
+var c38LexUnits = []string{
+	"'str'", "'it''s'", "'a\\'b'", "'q?'", "''", "\"dq\"", "\"d\"\"q\"", "\"d\\\"q\"", "`bq`", "`b``q`", "`?`",
+	"-- c\n", "--\n", "-- ?\n", "-- 'c\n", "--\tc\n", "--x", "# c\n", "#\n", "# ?\n", "#'\n",
+	"/* c */", "/**/", "/* ? */", "/* ' */", "/* -- \n */", "/*! 1 */", "/*!40101 id */", "/*!50000 ? */", "/*+ h */",
+	"?", " ? ", "1", "id", ",", "=", "(", ")", ";", " ", "\n", "\t",
+	// broken
+	"'", "\"", "`", "'a\\", "-- c", "# c", "/*", "/* c", "/*!", "/*! 1", "*/", "--", "#", "\\", "\x00",
+}
+
+// c38LexTexts places the units in every position of a well-formed statement, concatenates every
+// ordered pair, and adds seeded longer sequences.
+func c38LexTexts(seed uint64, label string) []string {
+	var out []string
+	seen := map[string]bool{}
+	add := func(q string) {
+		if !seen[q] {
+			seen[q] = true
+			out = append(out, q)
+		}
+	}
+	skeleton := []string{"", "select", " id from t2", " where id = ?", " and a = ", "?", ""}
+	for _, u := range c38LexUnits {
+		for slot := 0; slot < len(skeleton); slot++ {
+			var sb strings.Builder
+			for i, part := range skeleton {
+				if i == slot {
+					sb.WriteString(" " + u + " ")
+				}
+				sb.WriteString(part)
+			}
+			add(sb.String())
+		}
+		add(u)
+		add("select id from t2 " + u + " where id = ?") // the form named in the report: a unit in the middle, text goes on after it
+		add("select id from t2 " + u + "\n where id = ?")
+	}
+	step := kit.N(3, 1)
+	k := int(seed % uint64(step))
+	for _, a := range c38LexUnits {
+		for _, b := range c38LexUnits {
+			k++
+			if k%step != 0 {
+				continue
+			}
+			add("select " + a + b + " from t2 where id = ?")
+		}
+	}
+	r := kit.SubRand(seed, "C38/"+label)
+	for i := 0; i < kit.N(300, 6000); i++ {
+		n := r.Range(3, 9)
+		var sb strings.Builder
+		sb.WriteString(r.Pick([]string{"select ", "insert into t2 values (", "update t2 set a = ", ""}))
+		for j := 0; j < n; j++ {
+			sb.WriteString(r.Pick(c38LexUnits))
+			if r.Chance(1, 2) {
+				sb.WriteByte(' ')
+			}
+		}
+		add(sb.String())
+	}
+	return out
 }
